@@ -41,7 +41,7 @@ CHECKS["C13"] = dict(
     technique="TLA+ spec with action properties checked by TLC; script replay on the implementation; trace validation by TLC",
     design="DESIGN.md §5 C13")
 CHECKS["C15"] = dict(
-    text="TLC exhaustively checks spec/Feed.tla (source iterator, CIterator wrapper, closure/Vec/Extend sinks, stop positions, feed_into/feed_into_mut/Extend, item identities with destructor counts) and generates every behaviour of the stated depth plus long simulated ones; each is replayed on the real OpaqueCallback/FeedCallback/FromExtend/CIterator with per-step comparison of sink contents, invocation counts, reported counts, remaining source items and drop counts; random traces validated by TLC. Later rounds: sources lent by reference (FeedRef: what was not offered must still be in the source), C-style callbacks (Callback::new + extern \"C\" fn), as_citer.",
+    text="TLC exhaustively checks spec/Feed.tla (source iterator, CIterator wrapper, closure/Vec/Extend sinks, stop positions, feed_into/feed_into_mut/Extend, item identities with destructor counts) and generates every behaviour of the stated depth plus long simulated ones; each is replayed on the real OpaqueCallback/FeedCallback/FromExtend/CIterator with per-step comparison of sink contents, invocation counts, reported counts, remaining source items and drop counts; random traces validated by TLC. Later rounds: sources lent by reference (FeedRef: what was not offered must still be in the source), C-style callbacks (Callback::new + extern \"C\" fn), as_citer. Round 8: non-fused sources (Feed!Refill): the wrapped iterator must yield again after it has reported the end once the source has more.",
     note="Trusted: TLC, rt/src/feedad.rs, ledger allocator.",
     technique="TLA+ spec + TLC exhaustive model check; behaviour replay; trace validation by TLC",
     design="DESIGN.md §5 C15")
@@ -51,10 +51,10 @@ CHECKS["C06"] = dict(
     text="TLC exhaustively checks spec/CGlueObj.tla (payloads with identity and drop counters, handles of kind box/mut/ref/arcsome viewed as single-trait object, group, cast or final variant, contexts, six-step by-value call) for DropAtMostOnce, NoDangling, OwnedExactlyOnce, BorrowNeverFrees; every behaviour of depth 2 over the full alphabet and thousands of simulated behaviours of depth 12 are replayed on real cglue objects built with trait_obj!/group_obj!/cast!/into!/as_ref!/as_mut!/upcast/Clone/wrapped children/by-value calls, comparing per step payload states, drop counts, handles and at quiescence the allocator ledger; the same executions are logged and validated by TLC (Trace_CGlueObj) with every invariant evaluated per state. Later rounds: typed CBox/CSliceBox lifecycle (spec/Boxes.tla, incl. zero-sized payloads and empty boxed slices), ob_try (see C07).",
     note=_OBJ_NOTE, technique="TLA+ spec + TLC exhaustive model check; behaviour replay on real objects; trace validation by TLC", design="DESIGN.md §5 C06")
 CHECKS["C07"] = dict(
-    text="As C06 on the same specification, for CtxCountExact, CtxReleasedIffUnreferenced, CtxNotEarly, CtxAliveInCall and NoCtxLeak, with a deviation config that must (and does) violate NoCtxLeak. Context counts are read after every step; by-value calls on objects that hold the last context reference are run through an interposed vtable slot so that callee entry/exit, body, payload destructor and context destructor become trace events, and TLC accepts a context-destructor event only after the callee has returned. The borrowed-child context leak is reported as known finding F2. Later rounds: a fallible by-value call returning Result<wrapped child, ()> (Ob::ob_try: ob_try_ok / ob_try_err) in the object family and in CGlueObj.tla.",
+    text="As C06 on the same specification, for CtxCountExact, CtxReleasedIffUnreferenced, CtxNotEarly, CtxAliveInCall and NoCtxLeak, with a deviation config that must (and does) violate NoCtxLeak. Context counts are read after every step; by-value calls on objects that hold the last context reference are run through an interposed vtable slot so that callee entry/exit, body, payload destructor and context destructor become trace events, and TLC accepts a context-destructor event only after the callee has returned. The borrowed-child context leak is reported as known finding F2. Later rounds: a fallible by-value call returning Result<wrapped child, ()> (Ob::ob_try: ob_try_ok / ob_try_err) in the object family and in CGlueObj.tla. Round 8: lending (GAT) owned child, CGlueObj!KidView: the context count observed while the lent object lives is part of the action's outcome.",
     note=_OBJ_NOTE + " Known finding F2 listed in known_findings.json.", technique="TLA+ spec + TLC model check (ideal + deviation); behaviour replay; fine-grained trace validation by TLC with an interposed vtable", design="DESIGN.md §5 C07, §6 F2")
 CHECKS["C01"] = dict(
-    text="Call histories: spec/CGlueObj.tla gives every method of the reference family its own non-idempotent effect modulo 61; all behaviours of depth 2 and simulated behaviours of depth 12 (objects, groups, every successful cast/final view, clones, children, borrowed and boxed and Arc-held instances, with and without context) are replayed on the real objects and the returned value, the payload's register (read from its memory) and the instance reached (read through the object) are compared after every call; traces validated by TLC. Program space (all trait shapes of the grammar) is covered when evidence.program_space reports it. Later rounds: see C02 for the widened program space (forwarding and group containers, new shapes); extras: default bodies behind `where Self: Sized`, int_result family; ob_try in the object family. Simulated behaviours are independent traces (Gen_* fin step, four seeds).",
+    text="Call histories: spec/CGlueObj.tla gives every method of the reference family its own non-idempotent effect modulo 61; all behaviours of depth 2 and simulated behaviours of depth 12 (objects, groups, every successful cast/final view, clones, children, borrowed and boxed and Arc-held instances, with and without context) are replayed on the real objects and the returned value, the payload's register (read from its memory) and the instance reached (read through the object) are compared after every call; traces validated by TLC. Program space (all trait shapes of the grammar) is covered when evidence.program_space reports it. Later rounds: see C02 for the widened program space (forwarding and group containers, new shapes); extras: default bodies behind `where Self: Sized`, int_result family; ob_try in the object family. Simulated behaviours are independent traces (Gen_* fin step, four seeds). Round 8: borrowed wrapped children selected by argument (two inner values, fixed and selecting accessors: CGlueObj!KidBorrowed sel) - which inner value a by-reference wrapper reaches is decided by the call that returned it.",
     note=_OBJ_NOTE, technique="TLA+ spec + TLC; behaviour replay; trace validation by TLC", design="DESIGN.md §5 C01")
 CHECKS["C08"] = dict(
     text="Group casts on spec/CGlueObj.tla: CastIff and SameInstance are checked by TLC; check/as_ref/as_mut/cast/into/upcast for 8 requested sets over a group with 5 optional traits and 6 implementing types (distinct enabled sets) on Box/Mut/Ref containers are replayed on the real macros with verdict, dispatch target and follow-up calls compared; failing cast/into must drop the container exactly once. The exhaustive n<=4 matrix is covered when evidence.cast_matrix reports it.",
@@ -102,12 +102,12 @@ CHECKS["C05"] = dict(
     design="DESIGN.md §5 C05")
 
 CHECKS["C17"] = dict(
-    text="spec/Bindgen.tla enumerates API models (objects of three traits over Box/Mut/Ref x no/Arc context, groups with clashing function names, tool configurations incl. default container/context and function prefix, foreign declarations, context-generic structures) and defines the lifecycle of one wrapper invocation as a C or C++ caller observes it. Each selected model is rendered into a cbindgen-shaped C header, processed by the real cglue-bindgen built from /repo (fake cbindgen on PATH), compiled with a generated driver whose mock vtables and mock box/arc functions log every event, and the concatenated event log is validated by TLC (Trace_Bindgen): the wrapper of every vtable entry must reach exactly that entry of that object with &container first and its own arguments unchanged, return the entry's result, and consuming wrappers / drop helpers must clone the context before the call and release instance and context exactly once (GuardAlive invariant). Entries without a callable wrapper are violations. Later rounds: container-returning (Clone-like) entries, callbacks of struct and primitive elements, function-pointer arguments, same-name same-shape functions at different vtable positions; wrappers are looked up by the naming convention first and then by method name + fitting signature (the property asks for a callable wrapper, not for a name). Found and fixed F9 F10 F11 as well.",
+    text="spec/Bindgen.tla enumerates API models (objects of three traits over Box/Mut/Ref x no/Arc context, groups with clashing function names, tool configurations incl. default container/context and function prefix, foreign declarations, context-generic structures) and defines the lifecycle of one wrapper invocation as a C or C++ caller observes it. Each selected model is rendered into a cbindgen-shaped C header, processed by the real cglue-bindgen built from /repo (fake cbindgen on PATH), compiled with a generated driver whose mock vtables and mock box/arc functions log every event, and the concatenated event log is validated by TLC (Trace_Bindgen): the wrapper of every vtable entry must reach exactly that entry of that object with &container first and its own arguments unchanged, return the entry's result, and consuming wrappers / drop helpers must clone the context before the call and release instance and context exactly once (GuardAlive invariant). Entries without a callable wrapper are violations. Later rounds: container-returning (Clone-like) entries, callbacks of struct and primitive elements, function-pointer arguments, same-name same-shape functions at different vtable positions; wrappers are looked up by the naming convention first and then by method name + fitting signature (the property asks for a callable wrapper, not for a name). Found and fixed F9 F10 F11 as well. Round 8: pointer-valued results (void *, const void *, typed) incl. consuming entries (trait Tf); drivers compiled with -Werror=return-type.",
     note="Trusted: TLC, tools/cbgen.py (synthetic headers: cbindgen is not installed), the mock callee. C and C++ generators (C++ headers by tools/cbgen_cpp.py; in C++ the destructor is the drop helper). Found and fixed F7 and F5 (known_findings.json).",
     technique="TLA+ model space enumerated by TLC; real tool run on rendered headers; mock-vtable execution traces validated by TLC",
     design="DESIGN.md §5 C17", category="model_checking")
 CHECKS["C18"] = dict(
-    text="Same model space and tool run as C17. For every selected model the processed header must be accepted by gcc and clang (-std=c99 -fsyntax-only; g++ and clang++ -std=c++11 for the C++ header of the same model), be byte-identical across repeated fresh-process runs (5 quick / 30 thorough), and still contain the declarations that do not belong to CGlue constructs (incl. decoys named like CGlue patterns) unmodified and in order; argument-splitting cases check that everything after `--` except the output path reaches cbindgen and that the processed header lands in the output path. Later rounds: the alphabet of C17; the full repetition count is spent on the richest + covering models. Found and fixed F8 and F11 as well.",
+    text="Same model space and tool run as C17. For every selected model the processed header must be accepted by gcc and clang (-std=c99 -fsyntax-only; g++ and clang++ -std=c++11 for the C++ header of the same model), be byte-identical across repeated fresh-process runs (5 quick / 30 thorough), and still contain the declarations that do not belong to CGlue constructs (incl. decoys named like CGlue patterns) unmodified and in order; argument-splitting cases check that everything after `--` except the output path reaches cbindgen and that the processed header lands in the output path. Later rounds: the alphabet of C17; the full repetition count is spent on the richest + covering models. Found and fixed F8 and F11 as well. Round 8: the determinism repetitions run over Bindgen!OutputHistory (output path absent / holding a longer / a shorter earlier header).",
     note="Trusted: tools/cbgen.py (synthetic headers), gcc/clang/g++/clang++. C and C++ generators; the spec contributes the model space. Found and fixed F6 (known_findings.json).",
     technique="TLA+ model space enumerated by TLC; real tool run on rendered headers judged by C compilers, repeated-run hashing and declaration diff",
     design="DESIGN.md §5 C18", category="model_checking")
